@@ -19,6 +19,7 @@ import (
 	"os"
 	"os/exec"
 	"path/filepath"
+	"regexp"
 	"sort"
 	"strconv"
 	"strings"
@@ -789,8 +790,8 @@ func c08ShowOut(b []byte) string {
 		}
 	}
 	if printable {
-		if len(b) > 6000 {
-			return string(b[:6000]) + "…"
+		if len(b) > 60000 {
+			return string(b[:60000]) + "…"
 		}
 		return string(b)
 	}
@@ -822,11 +823,18 @@ func c08JudgeJobs(c *Ctx, jobs []*c08Job, runs int) {
 		}
 		c.Res.Count("cli/"+key+"/"+j.canon+strings.Join(j.more, "/"), !allFail && len(j.outs[0]) > 0)
 		if diff >= 0 {
+			known, why, worst := c08IsKnownCallTree(j.args, j.canon, j.more, j.outs)
+			if j.stream == "call_tree" {
+				c.Res.Hit("call_tree-diff:" + why)
+			}
+			if worst > 0 {
+				diff = worst // show the pair that differs beyond a renumbering
+			}
 			cs := c08Case{Kind: "cli", Stream: j.stream, Profile: j.canon, More: j.more, Args: j.args, Runs: 4 * runs, Out1: c08ShowOut(j.outs[0]), Out2: c08ShowOut(j.outs[diff])}
 			sig := "C08/cli/" + key + "/nondeterministic"
-			if j.stream == "call_tree" && c08HasTwinPaths(j.canon) {
-				// several tree nodes share one NodeInfo (known finding); a call tree without
-				// such twins keeps the ordinary signature
+			if known {
+				// several tree nodes share one NodeInfo and the outputs differ only in node
+				// numbering (known finding); anything else under -call_tree keeps its own signature
 				sig = "C08/cli/call_tree/identical-info-nodes"
 			}
 			c.Violation(sig, fmt.Sprintf("pprof %s on the same profile printed different bytes in %d runs (fresh processes)", strings.Join(j.args, " "), len(j.outs)), cs)
@@ -834,44 +842,217 @@ func c08JudgeJobs(c *Ctx, jobs []*c08Job, runs int) {
 	}
 }
 
-// c08HasTwinPaths: does some function occur under two different call paths (so that the call tree
-// has two nodes with the same NodeInfo)?
-func c08HasTwinPaths(canon string) bool {
+// c08CallTreeTwins verifies the CAUSE of the known finding C08/cli/call_tree/identical-info-nodes on the
+// real code: the profile is aggregated as the CLI does for that format, graph.New builds
+// the call tree, and Nodes.Sort (the order the format uses) is run on shuffles of its node list.
+//
+//	"twins-unstable"   the sorted order of the nodes (for -dot also of the graph's edge list) varies, and
+//	                   wherever two runs disagree the nodes at that rank have one and the same NodeInfo
+//	                   (the edges the same Src.Info and Dest.Info) — exactly the known mechanism
+//	"stable"           the node order does not vary: the known mechanism does not explain a difference
+//	"unstable-other"   the order varies between nodes with DIFFERENT infos: something else is broken
+func c08CallTreeTwins(canon string, order graph.NodeOrder, aggregateFunctions, allEdges bool, seed uint64) (verdict string) {
 	p, err := ParseCanon(canon)
-	if err != nil {
+	if err != nil || len(p.SampleType) == 0 {
+		return "unparsable"
+	}
+	idx := len(p.SampleType) - 1 // default sample_index
+	verdict = "stable"
+	if pn := safely(func() {
+		// -callgrind forces granularity "addresses", for which the driver does not aggregate at all
+		// (inlines kept); -dot uses the default granularity "functions"
+		if aggregateFunctions {
+			if err := p.Aggregate(true, true, false, false, false, false); err != nil {
+				verdict = "aggregate-error"
+				return
+			}
+		}
+		g := graph.New(p, &graph.Options{CallTree: true, SampleValue: func(v []int64) int64 { return v[idx] }})
+		r := NewRng(seed)
+		var first graph.Nodes
+		for k := 0; k < 12; k++ {
+			ns := make(graph.Nodes, len(g.Nodes))
+			for i, j := range perm(r, len(g.Nodes)) {
+				ns[i] = g.Nodes[j]
+			}
+			if err := ns.Sort(order); err != nil {
+				verdict = "sort-error"
+				return
+			}
+			if first == nil {
+				first = ns
+				continue
+			}
+			for i := range ns {
+				if ns[i] != first[i] {
+					if ns[i].Info != first[i].Info {
+						verdict = "unstable-other"
+						return
+					}
+					verdict = "twins-unstable"
+				}
+			}
+		}
+		if !allEdges {
+			return
+		}
+		// -dot sorts ALL edges of the graph in one list (ComposeDot): edges between twin pairs have
+		// equal (Src.Info, Dest.Info) and tie as well
+		var firstE []*graph.Edge
+		for k := 0; k < 12; k++ {
+			em := graph.EdgeMap{}
+			for _, n := range g.Nodes {
+				for _, e := range n.Out {
+					em[&graph.Node{}] = e
+				}
+			}
+			es := em.Sort()
+			if firstE == nil {
+				firstE = es
+				continue
+			}
+			for i := range es {
+				if es[i] != firstE[i] {
+					if es[i].Src.Info != firstE[i].Src.Info || es[i].Dest.Info != firstE[i].Dest.Info {
+						verdict = "unstable-other"
+						return
+					}
+					verdict = "twins-unstable"
+				}
+			}
+		}
+	}); pn != "" {
+		return "panic"
+	}
+	return verdict
+}
+
+var (
+	c08DotID         = regexp.MustCompile(`\bN+[0-9]+(_[0-9]+)*\b|\bnode[0-9]+\b`)
+	c08CallgrindCost = regexp.MustCompile(`^(\*|[+-][0-9]+|0x[0-9a-f]+) (-?[0-9]+) (-?[0-9]+)$`)
+	c08CallgrindCall = regexp.MustCompile(`^calls=0 (\*|[+-][0-9]+|0x[0-9a-f]+) (-?[0-9]+)$`)
+	c08CallgrindRef  = regexp.MustCompile(`^(ob|cob|fl|cfl|fi|fe|fn|cfn)=\(([0-9]+)\)(?: (.*))?$`)
+	c08CallgrindDis  = regexp.MustCompile(`(^| )\[[0-9]+/([0-9]+)\]$`)
+)
+
+// c08NormNumbering blanks what depends only on the ORDER in which nodes are emitted: dot node numbers
+// (N<k>, N<k>_<j>, node<k>); callgrind name abbreviations `(id) name` / `(id)` (expanded to the name)
+// and the index k of the `[k/n]` suffix that disambiguates call-tree nodes of one function.  The result
+// is the sorted list of lines.
+func c08NormNumbering(x []byte, callgrind bool) []string {
+	var ls []string
+	if !callgrind {
+		ls = strings.Split(string(c08DotID.ReplaceAll(x, []byte("#"))), "\n")
+	} else {
+		tables := map[string]map[string]string{"ob": {}, "fl": {}, "fn": {}}
+		class := map[string]string{"ob": "ob", "cob": "ob", "fl": "fl", "cfl": "fl", "fi": "fl", "fe": "fl", "fn": "fn", "cfn": "fn"}
+		// subposition compression: an address is written relative to the address of the PREVIOUS node
+		// (`*` same, `+d`/`-d`), both on the node's cost line and on its calls= lines
+		var prevNode, thisNode *uint64
+		decode := func(tok string) string {
+			var v uint64
+			switch {
+			case strings.HasPrefix(tok, "0x"):
+				v, _ = strconv.ParseUint(tok[2:], 16, 64)
+			case prevNode == nil:
+				return tok
+			case tok == "*":
+				v = *prevNode
+			default:
+				d, _ := strconv.ParseInt(tok, 10, 64)
+				v = *prevNode + uint64(d)
+			}
+			return fmt.Sprintf("@%x", v)
+		}
+		for _, l := range strings.Split(string(x), "\n") {
+			if m := c08CallgrindRef.FindStringSubmatch(l); m != nil {
+				t := tables[class[m[1]]]
+				name, ok := t[m[2]]
+				if strings.Contains(l, ") ") || !ok {
+					name = m[3]
+					t[m[2]] = name
+				}
+				l = m[1] + "=" + c08CallgrindDis.ReplaceAllString(name, "$1[#/$2]")
+			} else if m := c08CallgrindCost.FindStringSubmatch(l); m != nil {
+				if thisNode != nil {
+					prevNode = thisNode
+				}
+				a := decode(m[1])
+				l = a + " " + m[2] + " " + m[3]
+				if strings.HasPrefix(a, "@") {
+					v, _ := strconv.ParseUint(a[1:], 16, 64)
+					thisNode = &v
+				}
+			} else if m := c08CallgrindCall.FindStringSubmatch(l); m != nil {
+				l = "calls=0 " + decode(m[1]) + " " + m[2]
+			}
+			ls = append(ls, l)
+		}
+	}
+	sort.Strings(ls)
+	return ls
+}
+
+// c08SameUpToNodeNumbering: the two outputs are the same multiset of lines once node numbering is
+// blanked — they differ only in the order/numbering of nodes; nothing was added, lost or changed.
+func c08SameUpToNodeNumbering(a, b []byte, callgrind bool) bool {
+	la, lb := c08NormNumbering(a, callgrind), c08NormNumbering(b, callgrind)
+	if len(la) != len(lb) {
 		return false
 	}
-	paths := map[string]map[string]bool{}
-	for _, s := range p.Sample {
-		path := ""
-		for i := len(s.Location) - 1; i >= 0; i-- {
-			l := s.Location[i]
-			names := []string{fmt.Sprintf("@%x", l.Address)}
-			if len(l.Line) > 0 {
-				names = nil
-				for k := len(l.Line) - 1; k >= 0; k-- {
-					if f := l.Line[k].Function; f != nil {
-						names = append(names, f.Name+"|"+f.Filename)
-					} else {
-						names = append(names, "?")
-					}
-				}
-			}
-			for _, n := range names {
-				if paths[n] == nil {
-					paths[n] = map[string]bool{}
-				}
-				paths[n][path] = true
-				path += "/" + n
-			}
+	for i := range la {
+		if la[i] != lb[i] {
+			return false
 		}
 	}
-	for _, ps := range paths {
-		if len(ps) > 1 {
-			return true
+	return true
+}
+
+// c08IsKnownCallTree: exactly the known mechanism — -call_tree on a format that honours it, twin
+// nodes in the real call tree, outputs equal up to node numbering.
+// c08IsKnownCallTree: is a difference between runs explained by the known mechanism?  Only for a single
+// source, -call_tree on a format that honours it, no option that changes aggregation — and only when
+// c08CallTreeTwins shows on the real code that the node order of THIS profile's call tree is unstable
+// exactly among nodes with identical NodeInfo.
+func c08IsKnownCallTree(args []string, canon string, more []string, outs [][]byte) (known bool, why string, worst int) {
+	if len(more) > 0 || len(args) == 0 {
+		return false, "not-a-single-source-run", -1
+	}
+	tree := false
+	for _, x := range args[1:] {
+		switch {
+		case x == "-call_tree":
+			tree = true
+		case strings.HasPrefix(x, "-nodefraction="), strings.HasPrefix(x, "-edgefraction="), strings.HasPrefix(x, "-nodecount="):
+		default:
+			return false, "other-options", -1 // they change aggregation/selection: twins are not verified for them
 		}
 	}
-	return false
+	if !tree || (args[0] != "-dot" && args[0] != "-callgrind") {
+		return false, "no-call-tree", -1
+	}
+	order := graph.EntropyOrder // -dot: visual mode
+	if args[0] == "-callgrind" {
+		order = graph.FlatNameOrder
+	}
+	v := c08CallTreeTwins(canon, order, args[0] == "-dot", args[0] == "-dot", 1)
+	renum := true
+	for k, o := range outs {
+		if k > 0 && !bytes.Equal(o, outs[0]) && !c08SameUpToNodeNumbering(outs[0], o, args[0] == "-callgrind") {
+			renum = false
+			worst = k
+		}
+	}
+	// The effect is recorded, not required: an unstable node order also changes which redundant
+	// edges RemoveRedundantEdges drops and which twin survives the node-count cut.
+	why = v + ",renumbering-only"
+	if !renum {
+		why = v + ",also-structural"
+	}
+	if worst == 0 {
+		worst = -1
+	}
+	return v == "twins-unstable", why, worst
 }
 
 var c08Strategies = []string{"pm-pairs", "pm-pairs", "same-names", "equal-flat-cum", "positive", "many-edges", "entropy-twins"}
